@@ -56,9 +56,11 @@ fn vf_analyze_exact_mapping() {
         vec![T{path:"svc",uses:vec![],ignores:vec!["svc/api/docs"]}, T{path:"svc/api",uses:vec!["lib"],ignores:vec![]}, T{path:"lib",uses:vec![],ignores:vec![]}],
         vec![T{path:"svc",uses:vec![],ignores:vec![]}, T{path:"svc/api",uses:vec!["shared/proto"],ignores:vec![]}, T{path:"svc/api/v1",uses:vec!["lib/x.txt"],ignores:vec!["svc/api/v1/gen"]}, T{path:"lib",uses:vec![],ignores:vec!["lib/README.md"]}],
         vec![T{path:"tools",uses:vec!["lib", "app2"],ignores:vec!["lib/doc"]}, T{path:"lib",uses:vec![],ignores:vec![]}, T{path:"app2",uses:vec![],ignores:vec![]}, T{path:"app",uses:vec!["app2/src"],ignores:vec![]}],
+        // entries written with a trailing slash name directories (section 5: they match what is below them)
+        vec![T{path:"tools",uses:vec!["lib/"],ignores:vec![]}, T{path:"app",uses:vec![],ignores:vec!["app/generated/"]}, T{path:"lib",uses:vec![],ignores:vec![]}, T{path:"app2",uses:vec!["app/generated/"],ignores:vec![]}],
     ];
     let change_pool = ["app/x", "app2/x", "app2/src/main.rs", "app-web/i.js", "app/shared/a", "lib/y", "lib/x.txt", "lib/doc/a.md", "lib/README.md", "svc/api/docs/i.md",
-        "svc/api/v1/gen/a", "svc/api/v1/h.rs", "svc/m.rs", "shared/proto/a.proto", "tools/t.sh", "unrelated/z", "application/q", "li"];
+        "svc/api/v1/gen/a", "svc/api/v1/h.rs", "app/generated/out.rs", "svc/m.rs", "shared/proto/a.proto", "tools/t.sh", "unrelated/z", "application/q", "li"];
     let (mut checked, mut bad, mut nontrivial) = (0u64, 0u64, 0u64);
     for (ci, ts) in configs.iter().enumerate() {
         let cfg = mk_cfg(ts);
@@ -88,7 +90,21 @@ fn vf_analyze_exact_mapping() {
                 un.sort(); un.dedup();
                 if &un != got { why = Some(format!("summary {:?} is not the union of the non-ignored breakdown entries {:?}", got, un)); }
             }
-            if let Some(w) = why { bad += 1; if bad <= 3 { println!("VF-FAIL config#{} changes={:?} :: {} (C01)", ci, if set.len() > 6 { vec!["<large batch>"] } else { set.clone() }, w); } }
+            if why.is_none() {
+                // C03: the reported groups hold exactly the changed targets, each once, dependencies in earlier groups (declaration order is
+                // deliberately unsorted in these configurations)
+                let mut index = core::Index::new(&cfg, &cfg.get_target_path_set(), wp).unwrap();
+                if let Ok(o) = analyze(&AnalyzeInput::new(false, false, true), &mut index, changes()) {
+                    if let Some(groups) = &o.target_groups {
+                        let mut flat: Vec<String> = groups.iter().flatten().cloned().collect(); flat.sort();
+                        let pos = |p: &str| groups.iter().position(|g| g.iter().any(|x| x == p));
+                        if flat != o.targets { why = Some(format!("target groups {:?} do not hold exactly the reported targets {:?} (C03)", groups, o.targets)); }
+                        else { for a in ts.iter() { for b in ts.iter() { if a.path != b.path && (pp(b.path, a.path) || a.uses.iter().any(|u| pp(b.path, u) || pp(u, b.path) && false)) {
+                            if let (Some(pa), Some(pb)) = (pos(a.path), pos(b.path)) { if pb >= pa { why = Some(format!("target groups {:?}: `{}` depends on `{}` but is not in a later group (C03)", groups, a.path, b.path)); } } } } } }
+                    }
+                }
+            }
+            if let Some(w) = why { bad += 1; if bad <= 3 { println!("VF-FAIL config#{} changes={:?} :: {}{}", ci, if set.len() > 6 { vec!["<large batch>"] } else { set.clone() }, w, if w.contains("(C03)") { "" } else { " (C01)" }); } }
         }
     }
     println!("VF-SUMMARY test=analyze_exact_mapping checked={} nontrivial={} bad={}", checked, nontrivial, bad);
